@@ -3,6 +3,9 @@ import FsDb.Tie.Expected
 /- One tie theorem per anchored function: the code the model was written against is the code in /repo now. -/
 namespace FsDb.Tie
 
+theorem tie_codec_fileLen : Generated.Skel.codec_fileLen = Expected.codec_fileLen := rfl
+theorem tie_codec_marshalFile : Generated.Skel.codec_marshalFile = Expected.codec_marshalFile := rfl
+theorem tie_codec_unmarshalFile : Generated.Skel.codec_unmarshalFile = Expected.codec_unmarshalFile := rfl
 theorem tie_file_IterateBeforeSeq : Generated.Skel.file_IterateBeforeSeq = Expected.file_IterateBeforeSeq := rfl
 theorem tie_file_LastBefore : Generated.Skel.file_LastBefore = Expected.file_LastBefore := rfl
 theorem tie_file_Latest : Generated.Skel.file_Latest = Expected.file_Latest := rfl
@@ -10,6 +13,14 @@ theorem tie_file_PopBack : Generated.Skel.file_PopBack = Expected.file_PopBack :
 theorem tie_file_PopFront : Generated.Skel.file_PopFront = Expected.file_PopFront := rfl
 theorem tie_file_PushBack : Generated.Skel.file_PushBack = Expected.file_PushBack := rfl
 theorem tie_file_binarySearch : Generated.Skel.file_binarySearch = Expected.file_binarySearch := rfl
+theorem tie_repo_cf_Delete : Generated.Skel.repo_cf_Delete = Expected.repo_cf_Delete := rfl
+theorem tie_repo_cf_Get : Generated.Skel.repo_cf_Get = Expected.repo_cf_Get := rfl
+theorem tie_repo_cf_Store : Generated.Skel.repo_cf_Store = Expected.repo_cf_Store := rfl
+theorem tie_repo_cf_key : Generated.Skel.repo_cf_key = Expected.repo_cf_key := rfl
+theorem tie_repo_file_Delete : Generated.Skel.repo_file_Delete = Expected.repo_file_Delete := rfl
+theorem tie_repo_file_GetAll : Generated.Skel.repo_file_GetAll = Expected.repo_file_GetAll := rfl
+theorem tie_repo_file_Set : Generated.Skel.repo_file_Set = Expected.repo_file_Set := rfl
+theorem tie_repo_file_key : Generated.Skel.repo_file_key = Expected.repo_file_key := rfl
 theorem tie_seq_After : Generated.Skel.seq_After = Expected.seq_After := rfl
 theorem tie_seq_Before : Generated.Skel.seq_Before = Expected.seq_Before := rfl
 theorem tie_seq_Next : Generated.Skel.seq_Next = Expected.seq_Next := rfl
